@@ -11,6 +11,7 @@ pub mod c11;
 pub mod c12;
 pub mod c13;
 pub mod c14;
+pub mod c15;
 pub mod c16;
 pub mod c20;
 
@@ -31,6 +32,7 @@ pub fn get(id: &str) -> Option<Box<dyn Check>> {
         "C12" => Some(Box::new(c12::C12)),
         "C13" => Some(Box::new(c13::C13)),
         "C14" => Some(Box::new(c14::C14)),
+        "C15" => Some(Box::new(c15::C15)),
         "C16" => Some(Box::new(c16::C16)),
         "C20" => Some(Box::new(c20::C20)),
         _ => None,
@@ -38,7 +40,7 @@ pub fn get(id: &str) -> Option<Box<dyn Check>> {
 }
 
 pub fn all_ids() -> Vec<&'static str> {
-    vec!["C04", "C05", "C06", "C07", "C11", "C12", "C13", "C14", "C16", "C20"]
+    vec!["C04", "C05", "C06", "C07", "C11", "C12", "C13", "C14", "C15", "C16", "C20"]
 }
 
 /// does `msg` mention `parts` in this order (each after the previous one)?
